@@ -16,14 +16,16 @@ import json
 import os
 import sys
 import threading
+import time
 
 from spec import cdb_layouts as L
 
 from . import common as K
 
 MOD = "checks.c09_threads"
-MAX_SCHEDULES = 16
-DEBUG = []
+MAX_SCHEDULES = 14
+PAIR = []   # per candidate: ((reader thread, step), (writer thread, step))
+META = []   # per reads-from candidate: (reader thread, read site, write site, an intermediate state?)
 LABEL = "no line-level interleaving of the two threads changes what either observes"
 
 
@@ -95,7 +97,11 @@ def _encode(steps):
                 if kind != "R":
                     continue
                 # candidate foreign writes: same location, or a whole-container mutation of the same object
-                cands = list(writes[u].get(loc, [])) + [w for l2, ws in writes[u].items() if l2[0] == loc[0] and l2[1] == "*" for w in ws]
+                if loc[1] == "*":   # a read of the whole container: any foreign write into it may be seen
+                    cands = [w for l2, ws in writes[u].items() if l2[0] == loc[0] for w in ws]
+                else:
+                    cands = list(writes[u].get(loc, [])) + [w for l2, ws in writes[u].items()
+                                                            if l2[0] == loc[0] and l2[1] == "*" for w in ws]
                 if not cands:
                     continue
                 if any(k2 == k and p2 < p for k2, p2, _ in writes[t].get(loc, [])):
@@ -104,6 +110,15 @@ def _encode(steps):
                     if wv == vk:
                         continue
                     cond = [clk[u][j] < clk[t][k]]
+                    if loc[1] == "*":
+                        # the container as of foreign write j: no later foreign write into it before the read
+                        later = [j2 for l2, ws in writes[u].items() if l2[0] == loc[0] for (j2, _p, _v) in ws if j2 > j]
+                        for j2 in later:
+                            cond.append(z3.Not(clk[u][j2] < clk[t][k]))
+                        disj.append(z3.And(*cond))
+                        META.append((t, site, steps[u][j]["site"], bool(later)))
+                        PAIR.append(((t, k), (u, j)))
+                        continue
                     for (j2, p2, _) in writes[u].get(loc, []):
                         if j2 > j:
                             cond.append(z3.Not(clk[u][j2] < clk[t][k]))
@@ -111,48 +126,68 @@ def _encode(steps):
                         if k2 < k:
                             cond.append(z3.Not(clk[u][j] < clk[t][k2]))
                     disj.append(z3.And(*cond))
-                    DEBUG.append((t, loc[1], vk, wv, site, steps[u][j]["site"]))
-    if disj:
-        s.add(z3.Or(*disj))
+                    META.append((t, site, steps[u][j]["site"], any(j2 > j for (j2, _p, _v) in writes[u].get(loc, []))))
+                    PAIR.append(((t, k), (u, j)))
     return s, clk, len(disj), disj
 
 
 # ------------------------------------------------------------------ plain-python replay of a schedule
-def run_schedule(progs, schedule, repo, timeout=20.0):
-    """run the two thread programs under a line-gating scheduler; schedule = [[tid, file, line], ...]"""
+def run_schedule(progs, schedule, repo, timeout=1.0):
+    """run the two thread programs under a line-gating scheduler; schedule = [[tid, file, line], ...].
+    Entry i may run once every earlier entry of the *other* thread is done.  A thread that has left its solo trace
+    (after reading a foreign value -- the divergence we are looking for) re-synchronises at the next scheduled
+    line it does reach; entries it skipped count as done, and nobody waits longer than `timeout` for an entry."""
     cv = threading.Condition()
-    state = {"idx": 0, "dead": False}
+    done = [False] * len(schedule)
     results = [None, None]
     per = {0: [i for i, s in enumerate(schedule) if s[0] == 0], 1: [i for i, s in enumerate(schedule) if s[0] == 1]}
+    t_end = time.time() + 60
 
     def make_tracer(tid):
         st = {"next": 0, "in": None, "depth": 0, "stepdepth": 0}
 
         def finish_step():
             with cv:
-                if st["in"] is not None and state["idx"] == st["in"]:
-                    state["idx"] += 1
+                if st["in"] is not None:
+                    done[st["in"]] = True
                 st["in"] = None
                 cv.notify_all()
 
         def at_line(fn, lineno):
-            """the thread is about to execute (or to continue executing, after a call returned) this source line"""
             if not fn.startswith(repo):
                 return
             site = [fn[len(repo):].lstrip("/"), lineno]
-            if st["in"] is not None and site != schedule[st["in"]][1:] and st["depth"] <= st["stepdepth"]:
-                finish_step()
-            if st["in"] is None and st["next"] < len(per[tid]):
-                gi = per[tid][st["next"]]
-                if schedule[gi][1:] == site:
-                    with cv:
-                        ok = cv.wait_for(lambda: state["idx"] == gi or state["dead"], timeout=timeout)
-                        if not ok:
-                            state["dead"] = True
-                            cv.notify_all()
-                    st["in"] = gi
-                    st["next"] += 1
-                    st["stepdepth"] = st["depth"]
+            if st["in"] is not None and site != schedule[st["in"]][1:]:
+                # the step ends when control moves to another line of the same frame (or an outer one), or when a
+                # callee reaches the line of this thread's next scheduled step; lines of callees that touch no shared
+                # memory do not end it (the rest of the statement still belongs to the step)
+                mine = per[tid]
+                if st["depth"] <= st["stepdepth"] or (st["next"] < len(mine) and schedule[mine[st["next"]]][1:] == site):
+                    finish_step()
+            if st["in"] is None:
+                mine = per[tid]
+                hit = None
+                # strictly the next scheduled line of this thread: a 'line' event for a later entry's site may simply
+                # precede calls that produce the entries in between.  A thread that has left its solo trace never
+                # matches again and runs free -- the others stop waiting for it after `timeout`.
+                if st["next"] < len(mine) and schedule[mine[st["next"]]][1:] == site:
+                    hit = st["next"]
+                if hit is None:
+                    return
+                gi = mine[hit]
+                with cv:
+                    for n in range(st["next"], hit):
+                        done[mine[n]] = True      # lines this thread no longer executes
+                    cv.notify_all()
+                    others = [i for i in range(gi) if schedule[i][0] != tid]
+                    ok = cv.wait_for(lambda: all(done[i] for i in others), timeout=timeout if time.time() < t_end else 0)
+                    if not ok:
+                        for i in others:
+                            done[i] = True        # the other thread has left its solo trace: do not wait for it
+                        cv.notify_all()
+                st["in"] = gi
+                st["next"] = hit + 1
+                st["stepdepth"] = st["depth"]
 
         def local(frame, event, arg):
             if event == "line":
@@ -163,7 +198,6 @@ def run_schedule(progs, schedule, repo, timeout=20.0):
                     finish_step()
                 back = frame.f_back
                 if back is not None:
-                    # the caller resumes its current line (no new 'line' event is generated for it)
                     at_line(back.f_code.co_filename, back.f_lineno)
             return local
 
@@ -182,21 +216,16 @@ def run_schedule(progs, schedule, repo, timeout=20.0):
         finally:
             sys.settrace(None)
             fin()
-            # steps of this thread that were never reached must not block the other one
             with cv:
-                while st["next"] < len(per[tid]):
-                    gi = per[tid][st["next"]]
-                    cv.wait_for(lambda: state["idx"] >= gi or state["dead"], timeout=timeout)
-                    if state["idx"] == gi:
-                        state["idx"] += 1
-                    st["next"] += 1
-                    cv.notify_all()
+                for gi in per[tid]:
+                    done[gi] = True
+                cv.notify_all()
     ths = [threading.Thread(target=body, args=(i,)) for i in (0, 1)]
     for t in ths:
         t.start()
     for t in ths:
-        t.join(timeout * 3)
-    return results, state["dead"]
+        t.join(90)
+    return results, any(t.is_alive() for t in ths)
 
 
 def h_threads(ctx, a, b):
@@ -269,31 +298,61 @@ def h_threads(ctx, a, b):
     finally:
         _ex._CUR = saved
     ctx.note("events", [sum(len(s["ev"]) for s in st) for st in steps])
-    ctx.note("item_events", [sum(1 for s in st for e in s["ev"] if str(e[1][1]).startswith("[")) for st in steps])
     solver, clk, nd, disj = _encode(steps)
     ctx.note("rf_candidates", nd)
     import z3
-    if nd == 0:
-        solver.add(z3.BoolVal(False))  # empty disjunction: no read can take a differing foreign value
     repo = loader.REPO.rstrip("/")
     benign = 0
-    for attempt in range(MAX_SCHEDULES):
-        r = solver.check()
-        ctx.ex.stats.solver_calls += 1
-        if r == z3.unsat:
-            ctx.note("benign_foreign_reads_refuted_by_replay", benign)
-            ctx.check(LABEL, True, decided_by_solver=True)
-            return
-        if r != z3.sat:
-            break
-        m = solver.model()
+    # is there any interleaving at all in which some read takes a differing foreign value?
+    solver.push()
+    solver.add(z3.Or(*disj) if disj else z3.BoolVal(False))
+    r = solver.check()
+    solver.pop()
+    ctx.ex.stats.solver_calls += 1
+    if r == z3.unsat:
+        ctx.check(LABEL, True, decided_by_solver=True)
+        return
+    # yes: take the candidates one by one (intermediate states of the writer first, one representative per pair of
+    # source lines and kind), let the solver produce a schedule realising exactly that reads-from, and run it
+    order_c = sorted(range(len(disj)), key=lambda i: (not META[i][3], i))
+    seen_kind, todo = {}, []
+    for i in order_c:
+        kkey = META[i]
+        seen_kind[kkey] = seen_kind.get(kkey, 0) + 1
+        if seen_kind[kkey] <= 3:
+            todo.append(i)
+    exhausted = len(todo) <= MAX_SCHEDULES
+    for i in todo[:MAX_SCHEDULES]:
+        # first choice: the reader's line runs *immediately* after the writer's line (the writer has made no further
+        # progress: half-finished updates are what a racing reader sees); otherwise any schedule realising the pair
+        (rt_, rk), (wu, wj) = PAIR[i]
+        cr, cw = clk[rt_][rk], clk[wu][wj]
+        imm = [z3.Or(c < cw, c > cr) for t2 in (0, 1) for k2, c in enumerate(clk[t2]) if (t2, k2) not in ((rt_, rk), (wu, wj))]
+        # ... and, first of all, the reader then runs on to its end before the writer continues (a writer preempted
+        # in the middle of an update is the classic window)
+        first = [clk[rt_][k2] < clk[wu][j2] for k2 in range(rk + 1, len(clk[rt_])) for j2 in range(wj + 1, len(clk[wu]))][:4000]
+        if len(clk[rt_]) > rk + 1 and len(clk[wu]) > wj + 1:
+            first = [clk[rt_][-1] < clk[wu][wj + 1]]
+        m = None
+        for extra in (imm + first, imm, []):
+            solver.push()
+            solver.add(disj[i])
+            solver.add(*extra)
+            r = solver.check()
+            ctx.ex.stats.solver_calls += 1
+            if r == z3.sat:
+                m = solver.model()
+            solver.pop()
+            if m is not None:
+                break
+        if m is None:
+            continue
         order = sorted(((m.eval(clk[t][k], model_completion=True).as_long(), t, k) for t in (0, 1) for k in range(len(clk[t]))))
         sched = [[t, steps[t][k]["site"][0][len(repo):].lstrip("/"), steps[t][k]["site"][1]] for _, t, k in order]
-        # does this interleaving change what a thread observes?  (a read of a different but equivalent value is benign)
         saved, _ex._CUR = _ex._CUR, None
         try:
             trace.restore(tr)
-            got, dead = run_schedule(progs, sched, repo, timeout=5.0)
+            got, dead = run_schedule(progs, sched, repo, timeout=0.5)
             trace.restore(tr)
         finally:
             _ex._CUR = saved
@@ -302,8 +361,11 @@ def h_threads(ctx, a, b):
             ctx.check(LABEL, False, "schedule of %d steps: solo=%r interleaved=%r" % (len(sched), solo, got))
             return
         benign += 1
-        # exclude the reads-from pairs this model realises and ask for another interleaving
-        solver.add(z3.And(*[z3.Not(d) for d in disj if z3.is_true(m.eval(d, model_completion=True))]))
+    ctx.note("benign_foreign_reads_refuted_by_replay", benign)
+    if exhausted and len(todo) == len(disj):
+        # every reads-from candidate was realised by a schedule and none changed any observation
+        ctx.check(LABEL, True, decided_by_solver=True)
+        return
     # candidates left but none confirmed within the cap (or solver unknown): inconclusive, not a pass
     ctx.note("benign_foreign_reads_refuted_by_replay", benign)
     ctx.inconclusive(LABEL, "%d candidate interleavings replayed without effect; more remain (cap %d)" % (benign, MAX_SCHEDULES))
